@@ -314,6 +314,14 @@ func Yield(site string) {
 	}
 }
 
+// AfterRecv wraps a receive that is part of a larger expression: a scheduling point right after the receive completed.
+func AfterRecv[T any](v T, site string) T {
+	if g := cur(); g != nil {
+		yield(g, site)
+	}
+	return v
+}
+
 // block parks the caller until another goroutine or a simulator event clears g.waitOn.
 func block(g *G, on any, site string) {
 	s := g.sim
